@@ -88,12 +88,39 @@ def respLine {M} (o : MapOps M) (c : Cfg) (s : St M) (r : Resp) : String :=
 
 def sumHash (s : Str) : Nat := s.foldl (fun a b => (a * 31 + b) % 4294967296) 7
 
+/-- `restartwith <sid> (<name> <key> <size>)*`: the file left for the restart lists the extra holds after
+the holds of session `sid` (a crash image with more entries than the server had acknowledged, as
+C09's K4 produces); not an operation of the server model: the driver edits the file, then `restart` -/
+def parseExtra : List String → Option (List Hold)
+  | [] => some []
+  | n :: k :: z :: rest => match z.toInt?, parseExtra rest with
+    | some z, some hs => some (⟨decTok n, decTok k, z⟩ :: hs)
+    | _, _ => none
+  | _ => none
+
+/-- some lock name is listed under two different sessions: which session `server.New` restores first is
+Go map order, so the outcome of a conflict between them is not determined -/
+def crossSession (file : List (Sid × List Hold)) : Bool :=
+  file.any fun e => e.2.any fun h => file.any fun e' => e'.1 ≠ e.1 && e'.2.any fun h' => h'.name = h.name
+
+def injectFile {M} (s : St M) (sid : Sid) (hs : List Hold) : St M :=
+  { s with file := AMap.set s.file sid (((AMap.get s.file sid).getD []) ++ hs) }
+
 partial def seqLoop {M} (o : MapOps M) (c : Cfg) (h : IO.FS.Stream) (out : IO.FS.Stream) (s : St M) : IO Unit := do
   let line ← h.getLine
   if line.isEmpty then return ()
   let ws := (line.trimAscii.toString.splitOn " ").filter (· ≠ "")
   match ws with
   | ["end"] => out.putStrLn "end-ok"; out.flush; return ()
+  | "restartwith" :: sid :: rest =>
+    match parseExtra rest with
+    | none => out.putStrLn "bad-op"; out.flush; seqLoop o c h out s
+    | some hs =>
+      let s0 := injectFile s (decTok sid) hs
+      let (s', r) := step o c s0 .restart
+      out.putStrLn (respLine o c s' { r with tie := r.tie || (c.hasFile && crossSession s0.file) })
+      out.flush
+      seqLoop o c h out s'
   | _ =>
     match parseOp ws with
     | none => out.putStrLn "bad-op"; out.flush; seqLoop o c h out s
